@@ -19,7 +19,7 @@ from fractions import Fraction
 from typing import Optional
 
 from ..cfg import DataFlow
-from ..model import (AnalysisError, FuncInfo, NotConstant, bind_args, call_name, dotted, fold_constant, kw, last_attr,
+from ..model import (AnalysisError, FuncInfo, bind_args, call_name, dotted, last_attr,
                      norm_text, walk_no_nested)
 from ..rules.reductions import SumNorm, _fold
 from ..terms import FlowNormalizer, Poly
@@ -68,7 +68,6 @@ def _renorm(ctx, repo) -> None:
     construct = f"{f.qualname}:return"
     # expected shape: one monomial  A^1 * Σ(A)^-1 * Σ(X)^1
     ok_shape = len(poly.terms) == 1
-    why = ""
     A = S_new = S_old = None
     if ok_shape:
         (mono, coeff), = poly.terms.items()
@@ -377,7 +376,6 @@ def _source_size(ctx, repo) -> None:
 
     # ---- image-side filter
     g = repo.method(MEAS, "_BaseMeasurement2D", "gaussian_filter")
-    dfg = DataFlow(g.node)
     d = g.defaults().get("boundary")
     default_boundary = _fold(d)
     # mapping boundary -> mode
